@@ -52,12 +52,28 @@ def run(ctx):
     # reuse the trace-count slot rule
     from .c03 import size_slots
     for s in size_slots(ht, 'TRACECOUNT'):
+        if TB.header_buffers(P, s.func).get(s.buf) != 'fresh':
+            continue
         e = s.value
         if isinstance(e, ast.IfExp) and 'unstructured' in U(e.test):
             if role_of(e.body, ht.resolver(s)) == ('COUNT', 'TRACE'):
                 ctx.ok('C08.6', s.func, s.stmt, 'unstructured -> source trace count')
             else:
                 ctx.fail('C08.6', s.func, s.stmt, 'on the unstructured branch the trace-count field receives `%s`' % U(e.body))
+        elif ht.branch_of(s) == 'unstructured':
+            if role_of(e, ht.resolver(s)) == ('COUNT', 'TRACE'):
+                ctx.ok('C08.6', s.func, s.stmt, 'unstructured -> source trace count')
+            else:
+                ctx.fail('C08.6', s.func, s.stmt, 'on the unstructured branch the trace-count field receives `%s`' % U(e))
+        elif ht.branch_of(s) in ('any',):
+            r = role_of(e, ht.resolver(s))
+            if r == ('COUNT', 'TRACE'):
+                ctx.ok('C08.6', s.func, s.stmt, 'the trace-count field receives the source trace count')
+            else:
+                ctx.fail('C08.6', s.func, s.stmt, 'the trace-count field receives `%s` whatever the geometry: for an irregular survey '
+                         'this is the grid size, so the file reports structured = True and a trace count that includes the '
+                         'holes' % U(e)[:60])
+    ctx.floor('C08.6', 1, 'trace-count store of the fresh header')
 
 
 def bool_equiv(e, atoms, ref):
@@ -175,6 +191,13 @@ def irregular_filler(ctx):
             found += 1
             key, guard, idname = _membership(t)
             if key is None:
+                unguarded = [st_ for st_ in ast.walk(t.node) if isinstance(st_, ast.Assign) and
+                             isinstance(st_.targets[0], ast.Subscript) and U(st_.targets[0].value) == bp]
+                tries = [x for x in ast.walk(t.node) if isinstance(x, ast.Try)]
+                if unguarded and not tries:
+                    ctx.fail('C08.3', t, unguarded[0], 'the irregular filler stores into the zero-filled plane buffer without testing '
+                             'whether the grid position carries a trace: holes receive samples (and headers) of another trace')
+                    continue
                 raise AnalysisError('%s: the test whether a grid position carries a trace was not recognised' % t.qualname)
             # resolve a key held in a local
             if isinstance(key, ast.Name):
